@@ -21,6 +21,9 @@ inductive PyVal where
   | dict (cls : Option QualName) (kvs : List (PyVal × PyVal))                 -- insertion order
   | call (f : QualName) (args : List PyVal) (kwargs : List (Str × PyVal))     -- any printer that goes through pretty_call_alt
   | opaque (repr : Str)                                                        -- unregistered type: repr(value)
+  | timedelta (days secs us : Int)                                             -- datetime.timedelta, normalised fields
+  | ident (parts : List (Nat × Str))                                           -- identifier(...) / classattr(cls, name): token, text
+  | path (cls : QualName) (posix : PS)                                         -- pathlib.PurePath: build_fncall(cls, pretty_str(as_posix()))
   | commented (v : PyVal) (text : PS)
   | trailing (v : PyVal) (text : PS)
 deriving Repr, Inhabited
@@ -165,6 +168,54 @@ def keyDoc (ctx : Ctx) (k : PyVal) (viaPPV : Doc) : Doc :=
   | .str cls isBytes s => Doc.pstr { s := s, isBytes := isBytes, strategy := 3, ppIndent := ctx.indent, cls := cls }
   | _ => viaPPV
 
+def identDoc : List (Nat × Str) → Doc
+  | [(t, s)] => tk t s
+  | parts => .cat (parts.map fun (t, s) => tk t s)
+
+def intLit (n : Int) : Str := (toString n).toList.map Char.toNat
+
+/-- pretty_python_value(n, ctx) for a plain int -/
+def intDoc (ctx : Ctx) (n : Int) : Doc :=
+  if ctx.depthZero then ellipsisCall (builtin nmInt) else tk tInt (intLit n)
+
+def nmTimedelta : QualName := (false, [100, 97, 116, 101, 116, 105, 109, 101, 46, 116, 105, 109, 101, 100, 101, 108, 116, 97])
+
+/-- the six attributes pretty_timedelta shows: (sign, days, hours, minutes, seconds, milliseconds, microseconds) of abs(delta) -/
+def timedeltaParts (d s u : Int) : Bool × Int × Int × Int × Int × Int × Int :=
+  let total := d * 86400000000 + s * 1000000 + u
+  let neg := decide (total < 0)
+  let p := if neg then -total else total
+  let days := p / 86400000000
+  let secs := (p / 1000000) % 86400
+  let us := p % 1000000
+  (neg, days, secs / 3600, (secs / 60) % 60, secs % 60, us / 1000, us % 1000)
+
+def str_ (s : String) : Str := s.toList.map Char.toNat
+
+/-- pretty_timedelta (pretty_stdlib.py:172-250) -/
+def timedeltaDoc (ctx : Ctx) (d s u : Int) : Doc :=
+  if ctx.depthZero then ellipsisCall nmTimedelta
+  else
+    let (neg, days, hours, minutes, seconds, ms, us) := timedeltaParts d s u
+    let nctx := ctx.nested
+    let attrs : List (Str × Int) := [(str_ "days", days), (str_ "hours", hours), (str_ "minutes", minutes),
+      (str_ "seconds", seconds), (str_ "milliseconds", ms), (str_ "microseconds", us)]
+    let kw : List (Str × Doc) := (attrs.filter fun (_, v) => v != 0).map fun (k, v) => (k, intDoc nctx v)
+    let kw := match kw with
+      | (k, dd) :: rest =>
+        if days != 0 then
+          let years := days / 365
+          let rem := days % 365
+          if years != 0 then
+            let pre := if years > 1 then [intDoc ctx years, Doc.text [32], MUL_OP, .text [32]] else []
+            let post := if rem != 0 then [Doc.text [32], ADD_OP, .text [32], intDoc ctx rem] else []
+            (k, Doc.cat (pre ++ [intDoc ctx 365] ++ post)) :: rest
+          else (k, dd) :: rest
+        else (k, dd) :: rest
+      | [] => []
+    let doc := Doc.group (buildFncall ctx.indent (generalIdentifier nmTimedelta) [] kw false Option.none)
+    if neg then .cat [NEG_OP, doc] else doc
+
 /-- does pretty_python_value wrap this value's document in a comment annotation?  (innermost non-empty comment wrapper) -/
 def commentOf : PyVal → Option PS → Option PS
   | .commented v t, _ => commentOf v (some t)
@@ -253,6 +304,12 @@ def toDocW (ctx : Ctx) : PyVal → Option PS → Option PS → Doc
   | .ellipsis, c, _ => wrapC c ELLIPSIS
   | .bool b, c, _ => wrapC c (tk tKW (if b then [84, 114, 117, 101] else [70, 97, 108, 115, 101]))
   | .opaque r, c, _ => wrapC c (.text r)
+  | .ident parts, c, _ => wrapC c (identDoc parts)
+  | .timedelta d s u, c, _ => wrapC c (timedeltaDoc ctx d s u)
+  | .path cls posix, c, _ => wrapC c <|
+    buildFncall ctx.indent (generalIdentifier cls)
+      [if ctx.depthZero then ellipsisCall (builtin nmStr)
+       else .pstr { s := posix, strategy := ctx.strategy, ppIndent := ctx.indent, slashPattern := true }] [] false Option.none
   | .int cls _ lit, c, _ => wrapC c <|
     if ctx.depthZero then ellipsisCall (cls.getD (builtin nmInt))
     else match cls with
